@@ -156,12 +156,30 @@ def _exc_kind(e):
     return "exc:" + type(e).__name__
 
 
+def _view_after_root_use(case, W, kw):
+    """history: the same wrapper class was constructed on the ROOT dataset object before (a train/valid split, another view);
+    the wrapper under test is then built on a view of that root (SubsetWrapper) whose samples are exactly the case's --
+    the selection is promised to be a function of the constructor arguments and seed only"""
+    from kappadata.wrappers.dataset_wrappers.subset_wrapper import SubsetWrapper
+    cls, nc = list(case["cls"]), case["nc"]
+    n = len(cls)
+    extra = [(2 * k + 1) % max(nc, 1) for k in range(n + 2)]
+    root = make_ds(extra + cls[::-1], nc)
+    root.ids = [1000 + k for k in range(len(extra))] + [n - 1 - j for j in range(n)]
+    try:
+        with _Alarm():
+            W(root, **kw)
+    except (Exception, _Timeout):
+        pass
+    return SubsetWrapper(root, indices=[len(extra) + n - 1 - i for i in range(n)])
+
+
 def construct(case, tape=None, seeds=None):
     """build the real wrapper for a case (RNG recorded when tape is a list)"""
     import numpy as np
-    ds = make_ds(case["cls"], case["nc"])
     W = wrappers()[case["w"]]
     kw = dict(case["kw"])
+    ds = _view_after_root_use(case, W, kw) if case.get("view") else make_ds(case["cls"], case["nc"])
     if tape is None:
         with _Alarm():
             return W(ds, **kw)
@@ -650,7 +668,11 @@ def nc_options(cls):
 
 
 def case(w, cls, nc, **kw):
-    return {"w": w, "cls": list(cls), "nc": nc, "kw": kw}
+    c = {"w": w, "cls": list(cls), "nc": nc, "kw": kw}
+    # every fifth case (by content) runs with a history: see _view_after_root_use
+    if (len(c["cls"]) * 7 + sum(c["cls"]) * 3 + len(w) + len(kw)) % 5 == 0 and len(c["cls"]) > 0:
+        c["view"] = True
+    return c
 
 
 def percent_cases(rng, ns, percents):
